@@ -129,7 +129,7 @@ func opCommit(rows [][]string, existingParent bool) *crashOp {
 func opReceive(n int, graphIdx int, maxSize uint64) *crashOp {
 	pool := c12Pool()
 	return &crashOp{
-		name: fmt.Sprintf("receive of a %d-commit transfer (graph %d, max packfile size %d) followed by the ref update", n, graphIdx, maxSize),
+		name:  fmt.Sprintf("receive of a %d-commit transfer (graph %d, max packfile size %d) followed by the ref update", n, graphIdx, maxSize),
 		setup: func() (*stores.MemStore, *stores.MapRefStore) { return stores.NewMemStore(), stores.NewMapRefStore() },
 		run: func(db *stores.MemStore, rs *stores.MapRefStore) error {
 			g := &model.Graph{Parents: [][][]int{{{}}, {{}, {0}}, {{}, {}}}[graphIdx]}
@@ -414,7 +414,7 @@ func c13Library(c *mc.Ctx) {
 type cliScenario struct {
 	name  string
 	setup func(r *cliRepo, remoteURL string) error // builds the state before the operation
-	args  func(r *cliRepo) []string               // the operation
+	args  func(r *cliRepo) []string                // the operation
 }
 
 var c13srv struct {
@@ -468,7 +468,9 @@ func c13scenarios() []*cliScenario {
 	return []*cliScenario{
 		{name: "wrgl commit (new branch, 2 rows)",
 			setup: func(r *cliRepo, _ string) error { csv(r, "d.csv", [][]string{{"1", "a"}, {"2", "b"}}); return nil },
-			args:  func(r *cliRepo) []string { return []string{"commit", "main", filepath.Join(r.root, "d.csv"), "msg", "-p", "k", "-n", "1"} }},
+			args: func(r *cliRepo) []string {
+				return []string{"commit", "main", filepath.Join(r.root, "d.csv"), "msg", "-p", "k", "-n", "1"}
+			}},
 		{name: "wrgl commit (existing branch, 300 rows)",
 			setup: func(r *cliRepo, _ string) error {
 				a := csv(r, "a.csv", [][]string{{"1", "a"}})
@@ -476,7 +478,9 @@ func c13scenarios() []*cliScenario {
 				_, err := r.run(nil, "commit", "main", a, "first", "-p", "k", "-n", "1")
 				return err
 			},
-			args: func(r *cliRepo) []string { return []string{"commit", "main", filepath.Join(r.root, "d.csv"), "msg", "-p", "k", "-n", "1"} }},
+			args: func(r *cliRepo) []string {
+				return []string{"commit", "main", filepath.Join(r.root, "d.csv"), "msg", "-p", "k", "-n", "1"}
+			}},
 		{name: "wrgl merge (fast-forward)", setup: twoBranches,
 			args: func(r *cliRepo) []string { return []string{"merge", "main", "other", "-n", "1"} }},
 		{name: "wrgl merge --no-ff", setup: twoBranches,
